@@ -70,6 +70,21 @@ pub struct Tail {
     pub step_us: u32,
     /// upper bound on the fair phase, virtual microseconds
     pub max_us: u64,
+    /// the application of one endpoint keeps submitting small packets during the fair phase until the OTHER
+    /// direction has nothing left to do (progress-based tails only)
+    #[serde(default, skip_serializing_if = "Option::is_none")]
+    pub chatter: Option<Chatter>,
+}
+
+#[derive(Clone, Debug, Serialize, Deserialize, PartialEq)]
+pub struct Chatter {
+    /// the endpoint that keeps talking
+    pub e: u8,
+    pub ch: u8,
+    pub mode: u8,
+    pub size: u16,
+    /// one packet at the first step after this much time since the previous one (below the 2 s sync interval)
+    pub gap_us: u32,
 }
 
 #[derive(Clone, Debug, Serialize, Deserialize, PartialEq)]
@@ -333,6 +348,13 @@ pub struct SimPair {
     /// that arrives only when `release_stash` is called (a copy delayed for a very long time)
     pub stash_until_us: [u64; 2],
     stash: [Vec<(u32, Box<[u8]>)>; 2],
+    /// see `Tail::chatter`
+    pub chatter: Option<Chatter>,
+    pub chatter_packets: u32,
+    /// set when a progress-based tail stalled while the talker was still talking: the largest flush credit the
+    /// OTHER endpoint (the one that made no headway) held after any of its steps during the last third to two
+    /// thirds of the stall window
+    pub chatter_stall_max_credit: Option<i64>,
 }
 
 impl SimPair {
@@ -368,6 +390,16 @@ impl SimPair {
             stash_until_us: [0, 0],
             stash: [Vec::new(), Vec::new()],
             ack_count: [0, 0],
+            chatter: sc.tail.as_ref().and_then(|t| t.chatter.clone()).map(|mut c| {
+                c.e %= 2;
+                c.ch %= 64;
+                c.mode %= 4;
+                c.size = (c.size as u32).min(sc.dirs[c.e as usize].alloc_limit.max(1)).clamp(1, 1400) as u16;
+                c.gap_us = c.gap_us.min(1_500_000);
+                c
+            }),
+            chatter_packets: 0,
+            chatter_stall_max_credit: None,
         }
     }
 
@@ -696,8 +728,15 @@ impl SimPair {
         let start = self.now_us;
         self.trace.tail_start_us = Some(start);
         let step = step_us.max(1);
-        let mut last_sig = self.progress_signature();
+        let mut chatter = self.chatter.clone();
+        let mut last_chat_us = 0u64;
+        let mut last_sig = match &chatter {
+            Some(c) => self.direction_signature(1 - c.e as usize),
+            None => self.progress_signature(),
+        };
         let mut last_progress_us = self.now_us;
+        // largest credit of the silent endpoint over the most recent one to two thirds of the stall window (two buckets)
+        let mut credit_buckets = (i64::MIN, i64::MIN, self.now_us);
         let mut iterations = 0u32;
         loop {
             iterations += 1;
@@ -716,25 +755,70 @@ impl SimPair {
                 step
             };
             self.advance(cur);
+            if let Some(c) = &chatter {
+                let other = 1 - c.e as usize;
+                if self.direction_quiescent(other) {
+                    // the other direction is done: the talker stops and the ordinary tail takes over
+                    chatter = None;
+                    last_sig = self.progress_signature();
+                    last_progress_us = self.now_us;
+                } else if self.now_us - last_chat_us >= c.gap_us as u64 {
+                    last_chat_us = self.now_us;
+                    self.chatter_packets += 1;
+                    self.submit(c.e as usize, &SendSpec { ch: c.ch, mode: c.mode, size: c.size as u32 });
+                }
+            }
             for e in 0..2 {
                 self.endpoint_step(e);
             }
             self.tick_no += 1;
-            if self.quiescent() {
+            if chatter.is_none() && self.quiescent() {
                 self.trace.tail_quiescent = true;
                 return TailOutcome::Quiescent;
             }
-            let sig = self.progress_signature();
+            let sig = match &chatter {
+                Some(c) => self.direction_signature(1 - c.e as usize),
+                None => self.progress_signature(),
+            };
+            if let Some(c) = &chatter {
+                if self.now_us - credit_buckets.2 >= stall_us / 3 {
+                    credit_buckets = (credit_buckets.1, i64::MIN, self.now_us);
+                }
+                credit_buckets.1 = credit_buckets.1.max(self.hc[1 - c.e as usize].verif_stats().flush_alloc as i64);
+            }
             if sig != last_sig {
                 last_sig = sig;
                 last_progress_us = self.now_us;
             } else if self.now_us - last_progress_us >= stall_us {
+                if chatter.is_some() {
+                    self.chatter_stall_max_credit = Some(credit_buckets.0.max(credit_buckets.1));
+                }
                 return TailOutcome::Stalled { since_us: last_progress_us };
             }
             if self.now_us - start >= cap_us {
                 return TailOutcome::Cap;
             }
         }
+    }
+
+    /// Sender `s` has nothing left to send or to be acknowledged and none of its data frames is travelling.
+    pub fn direction_quiescent(&self, s: usize) -> bool {
+        !self.hc[s].is_send_pending() && self.hc[s].send_buffer_size() == 0 && !self.in_flight[1 - s].iter().any(|f| f.bytes.first() == Some(&10))
+    }
+
+    /// Things that move when direction s -> 1-s makes headway.
+    pub fn direction_signature(&self, s: usize) -> Vec<u64> {
+        let st = self.hc[s].verif_stats();
+        let rt = self.hc[1 - s].verif_stats();
+        vec![
+            self.trace.delivs[1 - s].len() as u64,
+            self.hc[s].send_buffer_size() as u64,
+            st.send_queue_len as u64,
+            st.pending_queue_len as u64,
+            st.resend_queue_len as u64,
+            st.tx_alloc as u64,
+            rt.rx_alloc as u64,
+        ]
     }
 
     /// Things that move when the connection makes headway (sync / keepalive frames do not count).
